@@ -99,8 +99,9 @@ class LiteralToken(RegexpBaseToken):
                 real_value = float(f"{self.value[2]}.{self.value[5] or '0'}e{self.value[7] or '0'}")
                 if real_value in (float('inf'), float('-inf')):
                     raise E2PyclParserException('The number is too large')
-                if real_value.is_integer() and abs(real_value) < 2 ** 53:
-                    real_value = int(real_value)
+                if not self.value[5] and int(self.value[7]) >= 0:
+                    # as before: an integer with a non-negative exponent stays an exact integer (1e5 is 100000)
+                    real_value = int(self.value[2]) * 10 ** int(self.value[7])
                 real_value = repr(real_value)
             else:
                 real_value = str(int(self.value[2]))
